@@ -4305,6 +4305,9 @@ class EntityMeta(type):
                 real_entity_subclass, pkval, avdict = entity._parse_row_(row, attr_offsets)
                 obj = real_entity_subclass._get_from_identity_map_(pkval, 'loaded', for_update)
                 if obj._status_ in del_statuses: continue
+                if obj._status_ == 'created': throw(CacheIndexError,
+                    'Cannot create %s: instance with primary key %s already exists in the database'
+                    % (obj.__class__.__name__, obj._pkval_))
                 obj._db_set_(avdict)
                 objects.append(obj)
         if used_attrs: entity._set_rbits(objects, used_attrs)
